@@ -10,6 +10,7 @@ import EqlModel.Lemmas.CacheDefs
 import EqlModel.Mode
 import EqlModel.Registry
 import EqlModel.ForAll
+import EqlModel.Rules
 
 open Eql Eql.Sexp
 
@@ -188,12 +189,58 @@ def runReg (args : List Sexp) : Option String := do
     | _ => none
   return s!"{id}\t{"|".intercalate outs}\t{s.inits}"
 
+-- ---------------------------------------------------------------- rule trees (C11, C12)
+
+/-- `(kind tag (cond c..) (kids ..))*` → first-child / next-sibling surface program -/
+partial def decKids : List Sexp → Option (SRule PVal)
+  | [] => some .nil
+  | k :: rest => do
+    let (h, args) ← k.headed?
+    let kind ← (if h == "ref" then some Kind.ref else if h == "alt" then some Kind.alt else none)
+    match args with
+    | [tag, .list (.atom "cond" :: c :: cs), .list (.atom "kids" :: inner)] =>
+        let cond := build (chain SCond.and2 (← decSCond c) (← cs.mapM decSCond))
+        return .cons kind cond (← tag.nat?) (← decKids inner) (← decKids rest)
+    | _ => none
+
+def showRTree : RTree PVal → String
+  | .leaf _ c tag => s!"(leaf {tag} {showCond c})"
+  | .exceptIf l r => s!"(ExceptIf {showRTree l} {showRTree r})"
+  | .alternative l r => s!"(Alternative {showRTree l} {showRTree r})"
+
+def renderTagged (rs : List (Nat × List PVal)) : String :=
+  ";".intercalate (rs.map fun r => s!"{r.1}:{renderRow r.2}")
+
+/-- `(rule id (classes..) (objs..) (vars..) (args t..) (base tag c..) (kids ..))` -/
+def runRule (args : List Sexp) : Option String := do
+  let id ← (← args.head?).atom?
+  let data ← decData (← field? "classes" args) (← field? "objs" args)
+  let vars ← decVars (← field? "vars" args)
+  let cargs ← (← field? "args" args).mapM decTerm
+  let base ← field? "base" args
+  let (tag0, bconds) ← match base with
+    | t :: c :: cs => do pure ((← t.nat?), chain SCond.and2 (← decSCond c) (← cs.mapM decSCond))
+    | _ => none
+  let kids ← decKids (← field? "kids" args)
+  let W := data.world
+  let D : VarId → List PVal := fun v =>
+    match vars.find? (·.1 == v) with
+    | some (_, cls, raw) => mkDom W cls raw
+    | none => []
+  let tree := buildRule (build bconds) tag0 kids
+  let rows := ruleRows W D tree cargs
+  -- reference: ripple-down rules on the surface program, per assignment of the declared variables
+  let spec := (allBnds D (vars.map (·.1))).filterMap fun β =>
+    (fireRule W (asgOf β) (build bconds) tag0 kids).map fun tag => (tag, termsVal W (asgOf β) cargs)
+  return s!"{id}\tR\t{renderTagged rows}\tS\t{renderTagged spec}\tB\t{showRTree tree}"
+
 def process (line : String) : String :=
   match Sexp.parse line with
   | some [.list (.atom "q" :: args)] => (runQuery args).getD "ERR decode"
   | some [.list (.atom "cache" :: args)] => (runCache args).getD "ERR decode"
   | some [.list (.atom "mode" :: args)] => (runMode args).getD "ERR decode"
   | some [.list (.atom "reg" :: args)] => (runReg args).getD "ERR decode"
+  | some [.list (.atom "rule" :: args)] => (runRule args).getD "ERR decode"
   | some _ => "ERR unknown-command"
   | none => "ERR parse"
 
